@@ -842,9 +842,22 @@ func (x *c03) loopbackC19(runs int) {
 			a.SetMaxWriteDelay(time.Hour)
 			b.SetReadLimit(128)
 		}
+		// variant (third / fourth run, every tenth after): packets at the widths of the remaining-length field
+		// (127/128, 16383/16384, 2097151/2097152 bytes) mixed in among small ones
+		boundary := i%10 == 2 || i%10 == 3
+		widths := [][]int{{127, 128}, {16383, 16384}, {2097151, 2097152}}
+		if boundary {
+			senders, per = 3, 5
+		}
 		recs := make([][]*sendRec, senders)
 		for id := 0; id < senders; id++ {
 			for seq := 0; seq < per; seq++ {
+				if boundary && (seq == 1 || seq == 3) {
+					// remaining length = 2 + len("s<id>") + payload
+					rl := widths[id][seq/2]
+					recs[id] = append(recs[id], &sendRec{seq: seq, enc: encode(senderPacket(id, seq, rl-4-4)), async: r.Intn(2) == 0})
+					continue
+				}
 				pad := r.Intn(30)
 				if r.Intn(12) == 0 && !limited {
 					pad = 3000 + r.Intn(3000)
@@ -965,6 +978,11 @@ func (x *c03) loopbackC19(runs int) {
 				wmsg = fmt.Sprintf("sender %d: packet %d received after packet %d", sid, rec.seq, l)
 			}
 			last[sid] = rec.seq
+		}
+		if k := errKindNet(rerr); wmsg == "" && k != "eof" && k != "src" && k != "closed" {
+			// only valid packets were sent: the receiving side may end with the end of the stream, nothing else
+			wmsg = fmt.Sprintf("over %s: the receiver failed with %q after %d of %d packets although every packet sent was a valid one (remaining lengths up to %d)",
+				kind, rerr, len(got), total, map[bool]int{true: 2097152, false: 6100}[boundary])
 		}
 		if wmsg == "" && cerr == nil && len(got) != total {
 			wmsg = fmt.Sprintf("over %s%s: %d sends returned nil and Close returned nil, the peer received %d packets (then %v)", kind,
